@@ -75,6 +75,9 @@ def restart_oracle(r):
     why = []
     if r.get("error"):
         why.append("restart scenario could not be driven: " + r["error"])
+    elif r["executed"] == 0 and r["variant"].startswith("slowpush"):
+        why.append("ResumeJob of a due job on a queue whose Push is slow (%s): the loop was woken before the change was in the queue and the "
+                   "resumed job was not executed within 5 s after ResumeJob had returned" % r["variant"])
     elif r["executed"] == 0:
         why.append("after Stop(); Start() with the loop of the stopped run still alive (%s), a due job scheduled for the new run was not executed "
                    "within 5 s: its wake-up was consumed by the stopped run's loop" % r["variant"])
@@ -100,9 +103,10 @@ def restart_failures(binp, seed, n):
     if bad:
         again = [r for r in run_restart(binp, seed + 1, n) if restart_oracle(r)]
         if again:
-            r = bad[0]
+            r = ([x for x in bad if x["variant"] in {y["variant"] for y in again}] or bad)[0]
             out.append({"case": {"kind": "restart", "variant": r["variant"], "seed": seed, "n": n}, "why": restart_oracle(r), "trace": r["trace"],
                         "failing_trials": "%d of %d, then %d of %d" % (len(bad), len(rows), len(again), n),
-                        "how": "looph restart: Stop(); Start() while the old loop is inside a blocking job / a slow Size(); the new loop held between "
-                               "Head() and select; ScheduleJob of a due job; then the old loop continues"})
+                        "how": "looph restart: (job/queue) Stop(); Start() while the old loop is inside a blocking job / a slow Size(); the new loop "
+                               "held between Head() and select; ScheduleJob of a due job; then the old loop continues.  (slowpush-*) ResumeJob of a "
+                               "due job with its Push held back while the loop is parked"})
     return rows, out
